@@ -304,8 +304,9 @@ PROPS["C10"] = dict(
     registered=True,
     level_text="Kernel-checked for the ref-update decision chains of fetch (saveFetchedRefs), push (identifyUpdates) and merge (runMerge) as hand-written models: without force a branch ref only ever moves to a descendant of its old value (ancestry = the proved-sound Reach of C11's graph model), a tag never moves, "
                "fast-forward merge moves the head exactly to the other commit and only when the head is the merge base, --ff-only rejects every other case, identical commits change nothing, and refs not named by the operation are untouched (frame). "
-               "The models are tied to the code by running the real CLI (`wrgl fetch/push/pull/merge`) against a reference server on generated repository pairs and having the Lean driver evaluate the same decision functions on the observed before/after refs.",
-    level_note=LEVEL_NOTE + "PARTIAL: the tie is differential (no translator for the if-chains); the server-side half of a push (receive-pack's own non-fast-forward refusal) is the harness's reference server, so only the client's refusal is checked; reflog content is compared, its SQL storage is not modelled.",
+               "The fetch and push decision chains are additionally tied to the source by a regenerated translator: extract/paths.go turns the if-chains of saveFetchedRefs / identifyUpdates / runMerge into guard tables (Facts.fetchSavePaths, pushUpdatePaths, mergeFFPaths) and C10_fetch_table_is_model / C10_push_table_is_model prove, over all 32 situations of a ref, that the extracted table fires exactly when the model says `update`; the `force` parameter is extracted as never assigned. "
+               "The models are also tied to the code by running the real CLI (`wrgl fetch/push/pull/merge`) against a reference server on generated repository pairs and having the Lean driver evaluate the same decision functions on the observed before/after refs.",
+    level_note=LEVEL_NOTE + "PARTIAL: the guard tables cover the decision, not the side effects of each branch (which ref is written, the reflog message), which are tied differentially; the server-side half of a push (receive-pack's own non-fast-forward refusal) is the harness's reference server, so only the client's refusal is checked; reflog content is compared, its SQL storage is not modelled.",
     lean_modules=["WrglModel.Props.C10"],
     quick_n=200, thorough_n=800, rule=_SYNC_RULE,
     modelled="cmd/wrgl/fetch/root.go saveFetchedRefs, cmd/wrgl/push_cmd.go identifyUpdates, cmd/wrgl/merge_cmd.go runMerge (the if-chains, as fetchDecision / pushDecision / mergeDecision)",
